@@ -226,6 +226,7 @@ class DirectCollocation(SamplingMethod):
                 for c, meta, _ in stage._constraints["inf"]:
                     self.add_inf_constraints(stage, opti, c, k, i, meta)
                 self.xqk.append(self.q)
+            self.add_coupling_constraints(stage, opti, k)
             for c, meta, args in stage._constraints["control"]:  # for each constraint expression
                 if k==0 and not args["include_first"]: continue
                 # Add it to the optimizer, but first make x,u concrete.
